@@ -59,7 +59,7 @@ func c15Canon(p, r map[string]string) string {
 }
 
 func TestVerifC15(t *testing.T) {
-	rep := newVerifReport("C15", "(round trip) profiles made by real enrolment flows (U2F registrations with attestation certificates, TOTP, pending challenges, bootstrap OTP) and generated variations of every field, saved and read back through the daemon's loader from the primary and, after a sync, from the cache, compared field-wise; (mirror) seeded histories of add/change/delete user and upsert/delete/expire signed record interleaved with synchronisations, cache row sets == primary's users and unexpired records after every completed sync; (faults) a failure and a connection cut injected at every driver call of a synchronisation on either connection: cache == before or == clean sync; (outage) primary gated: logins and second-factor checks continue from the cache, every mutating route answers >= 400 without attempting a profile write; class = (part, operation / fault position, outcome)")
+	rep := newVerifReport("C15", "(round trip) profiles made by real enrolment flows (U2F registrations with attestation certificates, TOTP, pending challenges, bootstrap OTP) and generated variations of every field, saved and read back through the daemon's loader from the primary and, after a sync, from the cache, compared field-wise; (mirror) seeded histories of add/change/delete user and upsert/delete/expire signed record interleaved with synchronisations, cache row sets == primary's users and unexpired records after every completed sync; (faults) a failure and a connection cut injected at every driver call of a synchronisation on either connection: cache == before or == clean sync; (outage) primary gated, not answering or refusing at once: logins and second-factor checks continue from the cache, every mutating route answers >= 400 without attempting a profile write; class = (part, operation / fault position, outcome)")
 	defer rep.Finish()
 	rng := verifRand("c15")
 	vip := newVerifFakeVIP()
@@ -335,12 +335,12 @@ func TestVerifC15(t *testing.T) {
 	e0 := real[0]
 	env.SetOutage(gate, true)
 	trust, _ := verifPublishedTrust(env)
-	// authentication continues from the cache
-	{
+	// authentication continues from the cache, whether the primary does not answer (hang) or refuses at once (fail-fast)
+	authContinues := func(mode string) {
 		ck, r := verifLogin(env, e0.name, "pw-"+e0.name)
-		rep.Eval(fmt.Sprintf("outage|login|%d", r.Code))
+		rep.Eval(fmt.Sprintf("outage|%s|login|%d", mode, r.Code))
 		if ck == "" {
-			rep.Violate("C15/outage/login-refused", "password login does not work while the primary store is unreachable", map[string]int{"status": r.Code})
+			rep.Violate("C15/outage/login-refused/"+mode, "password login does not work while the primary store is unreachable", map[string]int{"status": r.Code})
 		} else {
 			rep.Count("outage_auth_ok", 1)
 			time.Sleep(2100 * time.Millisecond)
@@ -351,26 +351,34 @@ func TestVerifC15(t *testing.T) {
 					ok = true
 				}
 			}
-			rep.Eval(fmt.Sprintf("outage|totp|%v", ok))
+			rep.Eval(fmt.Sprintf("outage|%s|totp|%v", mode, ok))
 			if !ok {
-				rep.Violate("C15/outage/totp-refused", "TOTP verification does not continue from the cache", map[string]int{"status": r.Code})
+				rep.Violate("C15/outage/totp-refused/"+mode, "TOTP verification does not continue from the cache", map[string]int{"status": r.Code})
 			} else {
 				rep.Count("outage_auth_ok", 1)
 			}
 			req, r2 := verifU2FBegin(env, ck)
 			if req == nil {
-				rep.Violate("C15/outage/u2f-begin-refused", "U2F sign request does not continue from the cache", map[string]int{"status": r2.Code})
+				rep.Violate("C15/outage/u2f-begin-refused/"+mode, "U2F sign request does not continue from the cache", map[string]int{"status": r2.Code})
 			} else {
 				r3 := verifU2FFinish(env, ck, e0.tok.SignResponse(req.AppID, req.Challenge))
-				rep.Eval(fmt.Sprintf("outage|u2f|%d", r3.Code))
+				rep.Eval(fmt.Sprintf("outage|%s|u2f|%d", mode, r3.Code))
 				if r3.Code != 200 {
-					rep.Violate("C15/outage/u2f-refused", "U2F verification does not continue from the cache", map[string]int{"status": r3.Code})
+					rep.Violate("C15/outage/u2f-refused/"+mode, "U2F verification does not continue from the cache", map[string]int{"status": r3.Code})
 				} else {
 					rep.Count("outage_auth_ok", 1)
 				}
 			}
 		}
 	}
+	authContinues("hang")
+	gate.mu.Lock()
+	gate.FailFast = true
+	gate.mu.Unlock()
+	authContinues("fail-fast")
+	gate.mu.Lock()
+	gate.FailFast = false
+	gate.mu.Unlock()
 	// every mutating route: >= 400, no profile write attempted
 	adminCk := verifMint(verifSessionClaims("root1", verifBit["password"]|verifBit["U2F"], time.Now().Add(-time.Minute), 16*time.Hour), verifSigner("ca_rsa2048"))
 	userCk := verifMint(verifSessionClaims(e0.name, verifBit["password"]|verifBit["U2F"], time.Now().Add(-time.Minute), 16*time.Hour), verifSigner("ca_rsa2048"))
@@ -447,7 +455,7 @@ func TestVerifC15(t *testing.T) {
 	rep.Floor("roundtrips_ok", 30)
 	rep.Floor("mirror_syncs_equal", 30)
 	rep.Floor("fault_injections", 40)
-	rep.Floor("outage_auth_ok", 3)
+	rep.Floor("outage_auth_ok", 6)
 	rep.Floor("outage_mutations_checked", 14)
 	rep.Floor("selfservice_live", 1)
 	rep.Floor("outage_selfservice_logins_checked", 2)
